@@ -1,7 +1,8 @@
 // Package c16: follow-mode restore converges and resumes correctly after being
 // killed (DESIGN §4 C16).
 //
-// Two case kinds:
+// Three case kinds ("big", a follower of a database larger than 4 GiB, is
+// described in big.go):
 //
 //   - "hist": an in-process follower (Replica.Restore with Follow) free-running
 //     at its poll interval against a live primary (application + litestream with
@@ -46,7 +47,9 @@ func init() {
 		Level: "fault_enumeration",
 		Rule: "kind=kill: per scenario (seeded primary history frozen into stages: writes, shrink/VACUUM, Compact(1..2) with 1ns L0 retention, snapshots, snapshot retention; page sizes 512..65536) one unkilled count run, then one run per kill index N (quick: 40 evenly spread indices per scenario plus every index between publication of the restored database and of its first sidecar; thorough: every index, plus double kills): kill before the N-th fs-mutating syscall of the follower process, primary advances 0-2 stages while it is down, restart, drive through the remaining stages, compare at every stage and at final quiescence. " +
 			"kind=hist: generated histories over {write+sync, shrink, VACUUM/incremental_vacuum, Compact(1),(2),(3), Snapshot, snapshot retention + level pruning, follower stop (context cancel) / start, catch-up check, jitter} with a free-running in-process follower at 1-30 ms poll interval. " +
-			"distinct = hash(config, stage structure, kill indices) resp. hash(config, interval, op sequence); non-trivial = (kill) the follower was really killed and afterwards converged or saw the primary advance while down; (hist) >=1 restart with the replica ahead of the sidecar and >=1 byte comparison",
+			"kind=big: a source database larger than 4 GiB (zeroblob bulk up to the 4 GiB offset, then rows with random content that live above it; page size 65536, thorough also 32768, auto_vacuum=incremental with a shrink, and Compact(1) with 1ns L0 retention while the follower is down) is followed by a free-running in-process follower; rounds update rows above the 4 GiB offset, grow the database and update pages below 1 GiB and above 4 GiB in one transaction, with one graceful stop/resume from the sidecar while the primary moves on. " +
+			"After each round the follower is awaited on poll cycles as in kind=hist and its file is compared in one streaming pass with Restore(TXID=replica max) (same mask) and with the committed source image (database file overlaid with the committed WAL frames; additionally the _litestream_seq root page is masked). " +
+			"distinct = hash(config, stage structure, kill indices) resp. hash(config, interval, op sequence); non-trivial = (kill) the follower was really killed and afterwards converged or saw the primary advance while down; (hist) >=1 restart with the replica ahead of the sidecar and >=1 byte comparison; (big) followed level-0 files contain pages above the 4 GiB offset, one of them also pages below 1 GiB, >=1 restart with the replica ahead and >=2 comparisons",
 		Assumptions: []string{
 			"file replica client only (no network)",
 			"reference = litestream's own ordinary Restore(TXID=replica max) as the property states; its correctness is C01/C02/C06's subject",
@@ -101,6 +104,19 @@ func cases(run *vf.Run) ([]json.RawMessage, error) {
 		cfg := pickConfig(rng, i)
 		out = append(out, vf.Spec(histSpec{Kind: "hist", Idx: i, Seed: vf.SubSeed(run.Seed, "C16-hist-case", i), Ops: ops + rng.Intn(30), IntervalMs: []int{1, 5, 10, 10, 30}[rng.Intn(5)], Cfg: cfg}))
 	}
+	// databases larger than 4 GiB (appended last: the indices of the cases above do not move)
+	bigs := []bigSpec{{PageSize: 65536, Rounds: []string{"upd-ovf", "span", "grow-zero"}, RestartAt: 1}}
+	if run.Tier == "thorough" {
+		bigs = []bigSpec{
+			{PageSize: 65536, Rounds: []string{"upd-hi", "upd-ovf", "span", "grow-zero", "multi"}, RestartAt: 2},
+			{PageSize: 65536, AutoVacuum: 2, Bridge: true, Rounds: []string{"span", "grow", "multi", "shrink", "upd-hi"}, RestartAt: 3},
+			{PageSize: 32768, Bridge: true, Rounds: []string{"grow-zero", "upd-hi", "span", "upd-ovf"}, RestartAt: 1},
+		}
+	}
+	for i, b := range bigs {
+		b.Kind, b.Idx, b.Seed, b.IntervalMs = "big", i, vf.SubSeed(run.Seed, "C16-big", i), 10
+		out = append(out, vf.Spec(b))
+	}
 	return out, nil
 }
 
@@ -117,6 +133,8 @@ func runCase(run *vf.Run, raw json.RawMessage, dir string) *vf.Result {
 		res = runHist(run, raw, dir)
 	case "kill":
 		res = runKill(run, raw, dir)
+	case "big":
+		res = runBig(run, raw, dir)
 	default:
 		return &vf.Result{HarnessErr: "unknown case kind " + k.Kind}
 	}
